@@ -137,10 +137,30 @@ def rules(ctx: Ctx) -> None:
     pl_node = next(c for c in fcfg.nodes.values() if c.kind == "for" and c.ast is PL)
     ok_sweep = len(sweeps) == 1 and fcfg.reach(pl_node.id, sweeps[0].id) and not fcfg.reach(sweeps[0].id, pl_node.id)
     ctx.ob("R04.3", "repair:orphan-sweep-after-the-loop", ok_sweep, fold.loc(), "resolved (now orphan) multi-candidate columns are removed by one sweep after all pairs were handled")
-    # look-up in the graph before asking the provider
-    first_src = [k for k in ast.walk(PL) if isinstance(k, ast.Call) and isinstance(k.func, ast.Attribute) and k.func.attr == "has_edge"]
-    ctx.ob("R04.3", "repair:graph-before-provider", bool(first_src), loc(fold.mod, PL), "columns defined by an earlier statement (present in the graph) are preferred over the provider", trivial=True)
+    # look-up in the graph before asking the provider: columns defined by an earlier statement (present in the graph) win; the provider is
+    # asked only when the graph had no answer
+    graph_nodes = [c for c in fcfg.nodes.values() if c.ast is not None and c.kind in ("stmt", "cond") and any(isinstance(k, ast.Call) and isinstance(k.func, ast.Attribute) and k.func.attr == "has_edge" for k in ast.walk(c.ast))
+                   and any(a is PL for a in prog.ancestors(c.ast))]
+    prov_nodes = [c for c in fcfg.nodes.values() if c.ast is not None and c.kind in ("stmt", "cond", "for") and any(isinstance(k, ast.Call) and isinstance(k.func, ast.Attribute) and k.func.attr == "get_table_columns"
+                  for k in ast.walk(c.ast.iter if c.kind == "for" else c.ast)) and any(a is PL for a in prog.ancestors(c.ast))]
+    ctx.ob("R04.3", "repair:graph-before-provider", bool(graph_nodes), loc(fold.mod, PL), "the repair looks the column up in the graph (columns defined by an earlier statement)", trivial=True)
+    # accumulators the graph look-up fills
+    accs = set()
+    for gnode in graph_nodes:
+        for k in prog.walk_fn(fold):
+            if isinstance(k, ast.Call) and isinstance(k.func, ast.Attribute) and k.func.attr in ("append", "extend", "add") and isinstance(k.func.value, ast.Name):
+                atoms = [u(a) for a in controlling_atoms(prog.parents, k)] + [u(c) for x in ast.walk(k) if isinstance(x, ast.comprehension) for c in x.ifs]
+                if any("has_edge" in a for a in atoms):
+                    accs.add(k.func.value.id)
+    for pn in prov_nodes:
+        from ..cfg import controlling_facts
 
+        facts = set(fcfg.facts_at(pn.id)) | set(controlling_facts(prog.parents, pn.ast))
+        after_graph = any(fcfg.reach(gn.id, pn.id) and not fcfg.reach(pn.id, gn.id, avoid=[fcfg.node_for(PL)]) for gn in graph_nodes)
+        only_if_empty = any((p and t.replace(" ", "") in {f"len({a})==0" for a in accs} | {f"not{a}" for a in accs}) or ((not p) and t in accs) for t, p in facts)
+        ctx.ob("R04.3", "repair:provider-only-when-the-graph-has-no-answer", after_graph and only_if_empty, f"{fold.mod.path}:{pn.lineno}",
+               "the provider is consulted after the graph look-up of the same pair and only when that look-up found nothing (a table created by an earlier "
+               "statement is in the graph; the provider may know an older table of the same name)")
     # ---- R04.4 --------------------------------------------------------------------------------------
     from . import c13
 
